@@ -106,8 +106,9 @@ mod util;
 mod voronoi;
 
 pub use voronoi::{
-    convex_cell::Vertex, half_space::HalfSpace, integrals, ConvexCell, Dimensionality, Voronoi,
-    VoronoiCell, VoronoiFace, VoronoiIntegrator,
+    convex_cell::{ConvexCellMarker, Vertex, WithFaces, WithoutFaces},
+    half_space::HalfSpace,
+    integrals, ConvexCell, Dimensionality, Voronoi, VoronoiCell, VoronoiFace, VoronoiIntegrator,
 };
 
 #[cfg(feature = "verif-hooks")]
